@@ -217,7 +217,7 @@ func zero(t types.Type) Value {
 			return zeroFloat
 		case t.Info()&types.IsComplex != 0:
 			return Complex(0)
-		case t.Kind() == types.UntypedNil:
+		case t.Kind() == types.UntypedNil, t.Kind() == types.Invalid:
 			return nil
 		}
 		panic(fmt.Sprintf("zero: basic %v", t))
